@@ -989,6 +989,144 @@ pub fn s_create_dir_all<P: AsRef<Path>>(path: P) -> io::Result<()> {
     Ok(())
 }
 
+/// mkdir(2) without -p: what a "cheaper" create_dir would do.
+pub fn s_create_dir<P: AsRef<Path>>(path: P) -> io::Result<()> {
+    let loc = classify(path.as_ref());
+    if let Some(e) = tick(C_MKDIR, loc.dir, loc.slot) {
+        return Err(err(e));
+    }
+    if !loc.ok || loc.slot != NONE {
+        stray(path.as_ref());
+        return Err(err(ENOTDIR));
+    }
+    let st = k();
+    if st.dir[loc.dir as usize].exists {
+        return Err(err(EEXIST));
+    }
+    let p = parent_of(loc.dir);
+    if p != NONE && !st.dir[p as usize].exists {
+        return Err(err(ENOENT));
+    }
+    assert!(!st.dir[loc.dir as usize].readonly_root, "KV-C15: read-only cache directories are never created");
+    st.dir[loc.dir as usize].exists = true;
+    st.dir[loc.dir as usize].created_by_us = true;
+    Ok(())
+}
+
+pub fn s_remove_dir<P: AsRef<Path>>(path: P) -> io::Result<()> {
+    let loc = classify(path.as_ref());
+    if let Some(e) = tick(C_UNLINK, loc.dir, loc.slot) {
+        return Err(err(e));
+    }
+    assert!(false, "KV-C17: directories are never removed");
+    Ok(())
+}
+
+/// In-place creation / truncation (File::create, fs::write, fs::copy): not part of the protocol;
+/// modelled so that a change which starts using them is judged by the same invariants.
+fn create_or_truncate(loc: Loc) -> io::Result<u8> {
+    let st = k();
+    if !st.dir[loc.dir as usize].exists {
+        return Err(err(ENOENT));
+    }
+    let cur = st.dir[loc.dir as usize].slot[loc.slot as usize];
+    guard_mutation(loc, cur, "create");
+    if cur != NONE {
+        assert!(!st.ino[cur as usize].published, "KV-C01: nobody writes a published file in place");
+        st.ino[cur as usize].content = 0;
+        st.ino[cur as usize].complete = false;
+        st.ino[cur as usize].dirty = true;
+        return Ok(cur);
+    }
+    let i = new_temp_inode(true);
+    st.ino[i as usize].mode = 0o644;
+    st.dir[loc.dir as usize].slot[loc.slot as usize] = i;
+    st.dir[loc.dir as usize].mutated = true;
+    Ok(i)
+}
+
+pub fn s_file_create<P: AsRef<Path>>(path: P) -> io::Result<File> {
+    let loc = classify(path.as_ref());
+    if let Some(e) = tick(C_OPEN, loc.dir, loc.slot) {
+        return Err(err(e));
+    }
+    if !loc.ok || loc.slot == NONE {
+        stray(path.as_ref());
+        return Err(err(ENOENT));
+    }
+    let i = create_or_truncate(loc)?;
+    Ok(make_file(alloc_fd(i, true)))
+}
+
+pub fn s_fs_copy<P: AsRef<Path>, Q: AsRef<Path>>(from: P, to: Q) -> io::Result<u64> {
+    let lf = classify(from.as_ref());
+    let lt = classify(to.as_ref());
+    if let Some(e) = tick(C_COPY, lt.dir, lt.slot) {
+        return Err(err(e));
+    }
+    if !lf.ok || lf.slot == NONE || !lt.ok || lt.slot == NONE {
+        stray(to.as_ref());
+        return Err(err(ENOENT));
+    }
+    let src = lookup(lf);
+    if src == NONE {
+        return Err(err(ENOENT));
+    }
+    let i = create_or_truncate(lt)?;
+    let st = k();
+    let s = st.ino[src as usize];
+    st.ino[i as usize].content = s.content;
+    st.ino[i as usize].key_tag = s.key_tag;
+    st.ino[i as usize].complete = s.complete;
+    st.ino[i as usize].dirty = true;
+    st.ino[i as usize].mode = s.mode;
+    Ok(1)
+}
+
+pub fn s_file_write(f: &mut File, buf: &[u8]) -> io::Result<usize> {
+    let fi = fd_index(f);
+    if let Some(e) = tick(C_COPY, NONE, fi as u8) {
+        return Err(err(e));
+    }
+    let st = k();
+    let i = st.fd[fi].ino as usize;
+    assert!(st.fd[fi].writable, "KV-C19: cached data is only ever opened read-only");
+    assert!(!st.ino[i].published, "KV-C01: nobody writes a published file in place");
+    st.ino[i].dirty = true;
+    st.ino[i].complete = false; // the library cannot know when a value is complete
+    st.fd[fi].off = 1;
+    Ok(buf.len())
+}
+
+pub fn s_file_set_len(f: &File, _size: u64) -> io::Result<()> {
+    let fi = fd_index(f);
+    if let Some(e) = tick(C_COPY, NONE, fi as u8) {
+        return Err(err(e));
+    }
+    let st = k();
+    let i = st.fd[fi].ino as usize;
+    assert!(!st.ino[i].published, "KV-C03: a published file is never truncated");
+    st.ino[i].complete = false;
+    st.ino[i].dirty = true;
+    Ok(())
+}
+
+// lock primitives and waiting: never part of the protocol (C06)
+pub fn s_file_lock(_f: &File) -> io::Result<()> {
+    assert!(false, "KV-C06: no operation ever takes a lock");
+    Ok(())
+}
+pub fn s_file_try_lock(_f: &File) -> Result<(), std::fs::TryLockError> {
+    assert!(false, "KV-C06: no operation ever takes a lock");
+    Ok(())
+}
+pub fn s_sleep(_d: Duration) {
+    assert!(false, "KV-C06: no operation waits for another participant to make progress");
+}
+pub fn s_yield_now() {
+    assert!(false, "KV-C06: no operation waits for another participant to make progress");
+}
+
 // One directory stream at a time is enough for the crate (prune, then temp cleanup).
 pub static mut RD_DIR: u8 = NONE;
 pub static mut RD_CUR: u8 = 0;
@@ -1575,6 +1713,19 @@ macro_rules! kfs_harness {
         #[kani::stub(std::fs::hard_link, crate::kv_kfs::s_hard_link)]
         #[kani::stub(std::fs::remove_file, crate::kv_kfs::s_remove_file)]
         #[kani::stub(std::fs::create_dir_all, crate::kv_kfs::s_create_dir_all)]
+        #[kani::stub(std::fs::create_dir, crate::kv_kfs::s_create_dir)]
+        #[kani::stub(std::fs::remove_dir, crate::kv_kfs::s_remove_dir)]
+        #[kani::stub(std::fs::remove_dir_all, crate::kv_kfs::s_remove_dir)]
+        #[kani::stub(std::fs::File::create, crate::kv_kfs::s_file_create)]
+        #[kani::stub(std::fs::copy, crate::kv_kfs::s_fs_copy)]
+        #[kani::stub(<std::fs::File as std::io::Write>::write, crate::kv_kfs::s_file_write)]
+        #[kani::stub(std::fs::File::set_len, crate::kv_kfs::s_file_set_len)]
+        #[kani::stub(std::fs::File::lock, crate::kv_kfs::s_file_lock)]
+        #[kani::stub(std::fs::File::lock_shared, crate::kv_kfs::s_file_lock)]
+        #[kani::stub(std::fs::File::try_lock, crate::kv_kfs::s_file_try_lock)]
+        #[kani::stub(std::fs::File::try_lock_shared, crate::kv_kfs::s_file_try_lock)]
+        #[kani::stub(std::thread::sleep, crate::kv_kfs::s_sleep)]
+        #[kani::stub(std::thread::yield_now, crate::kv_kfs::s_yield_now)]
         #[kani::stub(std::fs::read_dir, crate::kv_kfs::s_read_dir)]
         #[kani::stub(std::fs::File::open, crate::kv_kfs::s_file_open)]
         #[kani::stub(std::fs::File::metadata, crate::kv_kfs::s_file_metadata)]
